@@ -2,7 +2,7 @@
 import json
 import re
 
-from .lib import (PLUMBING, callee_allow, callers, closure_args_of_call, lit_strs, operand_local)
+from .lib import (PLUMBING, callee_allow, callers, closure_args_of_call, lit_strs, operand_local, result_split)
 from .lib_c09 import handoffs, precise_operands, stream_emissions
 from .lib_c10 import (closure_site, impl_fns, ok_sources, upvar_fields, upvar_origin, upvar_params, value_sources)
 
@@ -469,6 +469,24 @@ def r2_primitive_table(ctx):
                 d = "%s(as_value(raw)) unmodified=%s (callees %s)" % (vt["callee"].split("::")[-1], ok, vs.callee_names())
             ctx.check(R, "string-kind:%s" % T, ok, d, top)
     ctx.check(R, "primitive-count", nprim >= 12, "%d primitive deserialize_<T> methods examined" % nprim, None, nontrivial=False)
+    # Added after adversary change C09-J (deserialize_option answered `visit_none` for an empty value, so `?owner=` reached the handler as
+    # None instead of Some("")): a value that is present is present -- an absent field never gets here -- so the wrapper kinds hand the
+    # deserializer itself to the matching visit_<wrapper>, on every path, and call no other visitor method
+    for name, vname in (("deserialize_option", "visit_some"), ("deserialize_newtype_struct", "visit_newtype_struct")):
+        top = meths.get(name)
+        if top is None:
+            ctx.lost(R, "MapDeserializer::%s" % name)
+            continue
+        fns = [top] + ds.descendants(top)
+        visits = [(g, bb, t) for g in fns for bb, t in g.live_calls(r"_serde::de::Visitor::visit_\w+$")]
+        ok = len(visits) == 1 and visits[0][0] is top and visits[0][2]["callee"].endswith("::" + vname)
+        d = "visitor calls: %s" % sorted(t["callee"].split("::")[-1] for _, _, t in visits)
+        if ok:
+            g, bb, t = visits[0]
+            a = top.slice(t["args"][1])
+            ok = top.must_pass([bb]) and t["dest"]["l"] == 0 and not t["dest"]["p"] and a.params() == [1] and not a.callees and not _consts(a)
+            d += "; on every path: %s; its argument is the deserializer itself: %s" % (top.must_pass([bb]), a.params() == [1] and not a.callees)
+        ctx.check(R, "wrapper-kind:%s" % name[len("deserialize_"):], ok, d, top)
     # the raw value handed to the closures is the deserializer's own Value
     val = ds.one(r"^from_map::MapDeserializer::<'de, Z>::value$")
     if val is None:
@@ -771,6 +789,16 @@ def r5_multipart_boundary(ctx):
             badp = callee_allow(ps, hdr)
             ctx.check(R, "parser-input-is-the-raw-header:%s" % f.id, not badp and ps.has_const_path(r"header::CONTENT_TYPE$") and not [a for a in ps.atoms if a[0] == "lit"],
                       "parse_boundary argument: operations %s" % sorted(set(b[0] for b in badp)), (f, pb))
+        # Added after adversary change C09-I (a length test on the parsed boundary, `> 69` where RFC 2046 allows 70, refused a well-formed
+        # request before the handler): the MIME parser is the only judge of the boundary -- once it has accepted, every path leads to
+        # the Multipart constructor, none to an early refusal
+        for c, pb, pt in sl.calls(parser):
+            if pt["dest"]["p"]:
+                continue
+            sp = result_split(f, pt["dest"]["l"])
+            delivered = sp is not None and sp["ok"] is not None and f.must_pass([bb], start=sp["ok"])
+            ctx.check(R, "parsed-boundary-is-always-delivered:%s" % f.id, delivered,
+                      "after %s accepted the Content-Type, every path to a return passes the Multipart constructor: %s" % (c.split("::")[-1], delivered), (f, pb))
         ss = f.slice(t["args"][0])
         bads = callee_allow(ss, ASYNC + [r"StreamingBody::into_stream$", r"StreamingBody::new$", r"RequestContext::<Context>::request_body_max_bytes$", r"http::Request::<T>::into_parts$",
                                          r"http::Request::<T>::into_body$"])
